@@ -188,7 +188,7 @@ func (c *proxyClient) readLoop(ctx context.Context) error {
 		rpc, err := c.conn.Read(ctx)
 		if err != nil {
 			verifhook.At("proxy.report", 0)
-			c.toServer <- command{id: c.id, err: err}
+			c.report(ctx, err)
 			return errors.Wrap(err, "failed to read from connection")
 		}
 
@@ -200,6 +200,16 @@ func (c *proxyClient) readLoop(ctx context.Context) error {
 	}
 }
 
+// report tells the proxy that this connection has failed. Once the proxy's
+// context is cancelled nobody receives commands any more, so give up then
+// rather than block forever.
+func (c *proxyClient) report(ctx context.Context, err error) {
+	select {
+	case c.toServer <- command{id: c.id, err: err}:
+	case <-ctx.Done():
+	}
+}
+
 func (c *proxyClient) writeLoop(ctx context.Context) error {
 	for {
 		select {
@@ -208,7 +218,7 @@ func (c *proxyClient) writeLoop(ctx context.Context) error {
 			err := c.conn.Write(ctx, rpc)
 			if err != nil {
 				verifhook.At("proxy.report", 1)
-				c.toServer <- command{id: c.id, err: err}
+				c.report(ctx, err)
 				return errors.Wrap(err, "failed to write to connection")
 			}
 		case <-ctx.Done():
@@ -229,7 +239,7 @@ func (c *proxyClient) connect(ctx context.Context, newConnection NewConnection) 
 
 	c.conn, err = newConnection(c.id)
 	if err != nil {
-		c.toServer <- command{id: c.id, err: err}
+		c.report(ctx, err)
 		return
 	}
 
